@@ -36,6 +36,7 @@ const (
 	spWKBHeader
 	spWKTTokens
 	spJSONTokens
+	spScanText
 )
 
 func init() {
@@ -62,7 +63,8 @@ func init() {
 			"hangs are caught by the worker's wall-clock watchdog (30 s for runs that take well under a second) and attributed through the journal and the watchdog's goroutine dump",
 		},
 		Spaces: []props.Space{{}, {Name: "tile blobs of 0-2 bytes", Total: 65793}, {Name: "WKB header tuples (order byte x type word x count x srid flag x truncation)", Total: wkbHeaderTotal()}, {Name: "WKT sentences of <= 5 tokens over a 16-token alphabet", Total: 1118481},
-			{Name: "JSON sentences of <= 4 tokens over a 16-token alphabet", Total: 69905}},
+			{Name: "JSON sentences of <= 4 tokens over a 16-token alphabet", Total: 69905},
+			{Name: "scanner inputs of 5-6 bytes over a 12-byte framing alphabet", Total: 12*12*12*12*12 + 12*12*12*12*12*12}},
 		NonTrivial: func(o *core.Outcome) bool {
 			for _, v := range o.Faults {
 				if v > 0 {
@@ -564,6 +566,10 @@ func RunEnum(t *core.T) {
 	t.Op()
 }
 
+// token faults also insert whitespace and control characters the small-space alphabets do not have
+var wktFaultTokens = append(append([]string{}, wktTokens...), "\r", "\n", "\t", "\v", "\f", "\u00a0", "\u2028", "  ", "\r\n", "Z", "M", "ZM", "EMPTY,", ";")
+var jsonFaultTokens = append(append([]string{}, jsonTokens...), "\r", "\n", "\t", "\ufeff", `"\u0000"`, "1e999", "-", `"bbox"`, `"features"`, `"properties"`, `"id"`)
+
 var tokenRE = regexp.MustCompile(`[A-Za-z]+|[-+0-9.eE]+|\(|\)|,|\s+`)
 
 // WKT token alphabet (16 tokens) for token faults and the small space.
@@ -625,9 +631,9 @@ func RunStack(t *core.T) {
 		nf := 1 + s.Pick([]int{3, 2, 1}, "nfaults")
 		for i := 0; i < nf; i++ {
 			if (fam == famWKT || fam == famJSON) && s.Chance(1, 2, "token") {
-				re, alphabet := tokenRE, wktTokens
+				re, alphabet := tokenRE, wktFaultTokens
 				if fam == famJSON {
-					re, alphabet = jsonTokenRE, jsonTokens
+					re, alphabet = jsonTokenRE, jsonFaultTokens
 				}
 				txt, kind := tokenFault(s, string(data), re, alphabet)
 				data = []byte(txt)
@@ -735,7 +741,26 @@ func RunSmall(t *core.T) {
 	warmUp()
 	s := t.Src
 	c := &ctx{t: t}
-	switch s.Intn(4, "space") {
+	switch s.Intn(5, "space") {
+	case 4:
+		// what a driver might hand the scanners: short blobs over the bytes framing detection looks at
+		alpha := []byte{'0', '1', '\\', 'x', '\n', '\r', ' ', 'a', 'F', 0x00, 0x01, 0xff}
+		for i := 0; i < 32 && t.Unlisted() == 0; i++ {
+			s.Begin("scantext")
+			n := 5 + s.Intn(2, "len")
+			data := make([]byte, n)
+			sig := uint64(n)
+			for j := range data {
+				k := s.Intn(len(alpha), "ch")
+				data[j] = alpha[k]
+				sig = sig*13 + uint64(k) + 1
+			}
+			s.End()
+			c.input = fmt.Sprintf("scanner input %q", data)
+			t.StateIn(spScanText, sig)
+			t.Fault("garbage_blob")
+			c.decodeWKB(data, simio.ReaderFaults{})
+		}
 	case 3:
 		for i := 0; i < 24 && t.Unlisted() == 0; i++ {
 			s.Begin("json-sentence")
